@@ -167,13 +167,15 @@ class Gen:
         self.ck(t + ".sub.rl", rv - lv, "(%s) - (%s)" % (r, l))
 
     def source(self):
-        body = [PRELUDE, CONSTEXPR_BLOCK]
+        vm, self.vm_cells, self.vm_expected = vm_block()
+        body = [PRELUDE, CONSTEXPR_BLOCK, vm]
         for name, lines in self.funcs:
             body.append("static void f_%s() {" % name)
             body += ["    " + l for l in lines]
             body.append("}")
         body.append("int main() {")
         body += ["    f_%s();" % name for name, _ in self.funcs]
+        body.append("    sxv::table();")
         body.append('    std::printf("MISMATCHES %d\\n", sx::g_mismatch);')
         body.append('    std::printf("END\\n");')
         body.append("    return 0;")
@@ -776,11 +778,135 @@ def sec_standard_dependent(g):
     g.raw("  CK(\"%s\", 9, mx); CK(\"%s\", 12, sum); CK(\"%s\", -2, std::min(arr[1], arr[2])); }" % (g.tag("stddep.std_max"), g.tag("stddep.range_sum"), g.tag("stddep.std_min")))
 
 
+# ------------------------------------------------------------------------------------------------
+# validity matrix: for every binary operator and every ordered pair of operand KINDS, is `a op b` well-formed?
+# (SFINAE detection inside the program; the printed 0/1 table must be identical under every configuration, which is
+# what "accepted or rejected alike" means for the operator surface; a hand-derived subset is checked exactly)
+# ------------------------------------------------------------------------------------------------
+VM_KINDS = [("QI", "au::Quantity<Mtr, int>"), ("QD", "au::Quantity<Mtr, double>"), ("QF", "au::Quantity<Ft, int>"),
+            ("QS", "au::Quantity<au::Seconds, int>"), ("QU", "au::Quantity<au::UnitProductT<>, int>"),
+            ("PK", "au::QuantityPoint<Kel, int>"), ("PC", "au::QuantityPoint<Cel, double>"), ("Z", "au::Zero"), ("I", "int"), ("D", "double"),
+            ("CH", "std::chrono::milliseconds"), ("MK", "au::QuantityMaker<Mtr>"), ("PM", "au::QuantityPointMaker<Kel>"),
+            ("SY", "au::SymbolFor<Mtr>"), ("SG", "au::SingularNameFor<Mtr>"), ("CN", "au::Constant<Mtr>"),
+            ("MG", "decltype(au::mag<3>())"), ("UT", "Mtr")]
+VM_OPS = [("add", "+"), ("sub", "-"), ("mul", "*"), ("div", "/"), ("mod", "%"), ("eq", "=="), ("ne", "!="), ("lt", "<"), ("le", "<="),
+          ("gt", ">"), ("ge", ">="), ("addeq", "+="), ("subeq", "-="), ("muleq", "*="), ("diveq", "/=")]
+# cells whose mere detection is a hard error (static_assert inside a deduced return type): identical in every
+# configuration on the pinned tree; left out of the table (found by compiling, frozen here)
+VM_HARD_ERROR = {
+    ("add", "CH", "QD"), ("add", "CH", "QF"), ("add", "CH", "QI"), ("add", "CH", "QU"), ("add", "PC", "QD"), ("add", "PC", "QF"),
+    ("add", "PC", "QI"), ("add", "PC", "QS"), ("add", "PC", "QU"), ("add", "PK", "QD"), ("add", "PK", "QF"), ("add", "PK", "QI"),
+    ("add", "PK", "QS"), ("add", "PK", "QU"), ("add", "QD", "CH"), ("add", "QD", "PC"), ("add", "QD", "PK"), ("add", "QD", "QS"),
+    ("add", "QD", "QU"), ("add", "QF", "CH"), ("add", "QF", "PC"), ("add", "QF", "PK"), ("add", "QF", "QS"), ("add", "QF", "QU"),
+    ("add", "QI", "CH"), ("add", "QI", "PC"), ("add", "QI", "PK"), ("add", "QI", "QS"), ("add", "QI", "QU"), ("add", "QS", "PC"),
+    ("add", "QS", "PK"), ("add", "QS", "QD"), ("add", "QS", "QF"), ("add", "QS", "QI"), ("add", "QS", "QU"), ("add", "QU", "CH"),
+    ("add", "QU", "PC"), ("add", "QU", "PK"), ("add", "QU", "QD"), ("add", "QU", "QF"), ("add", "QU", "QI"), ("add", "QU", "QS"),
+    ("addeq", "CH", "CN"), ("div", "CN", "QF"), ("div", "CN", "QI"), ("div", "CN", "QS"), ("div", "CN", "QU"), ("div", "I", "QF"),
+    ("div", "I", "QI"), ("div", "I", "QS"), ("div", "QF", "QI"), ("div", "QF", "QS"), ("div", "QF", "QU"), ("div", "QI", "QF"),
+    ("div", "QI", "QS"), ("div", "QI", "QU"), ("div", "QS", "QF"), ("div", "QS", "QI"), ("div", "QS", "QU"), ("div", "QU", "QF"),
+    ("div", "QU", "QI"), ("div", "QU", "QS"), ("div", "SY", "QF"), ("div", "SY", "QI"), ("div", "SY", "QS"), ("div", "SY", "QU"),
+    ("mod", "QD", "QF"), ("mod", "QD", "QI"), ("mod", "QD", "QS"), ("mod", "QD", "QU"), ("mod", "QF", "QD"), ("mod", "QF", "QS"),
+    ("mod", "QF", "QU"), ("mod", "QI", "QD"), ("mod", "QI", "QS"), ("mod", "QI", "QU"), ("mod", "QS", "QD"), ("mod", "QS", "QF"),
+    ("mod", "QS", "QI"), ("mod", "QS", "QU"), ("mod", "QU", "QD"), ("mod", "QU", "QF"), ("mod", "QU", "QI"), ("mod", "QU", "QS"),
+    ("sub", "CH", "QD"), ("sub", "CH", "QF"), ("sub", "CH", "QI"), ("sub", "CH", "QU"), ("sub", "PC", "QD"), ("sub", "PC", "QF"),
+    ("sub", "PC", "QI"), ("sub", "PC", "QS"), ("sub", "PC", "QU"), ("sub", "PK", "QD"), ("sub", "PK", "QF"), ("sub", "PK", "QI"),
+    ("sub", "PK", "QS"), ("sub", "PK", "QU"), ("sub", "QD", "CH"), ("sub", "QD", "QS"), ("sub", "QD", "QU"), ("sub", "QF", "CH"),
+    ("sub", "QF", "QS"), ("sub", "QF", "QU"), ("sub", "QI", "CH"), ("sub", "QI", "QS"), ("sub", "QI", "QU"), ("sub", "QS", "QD"),
+    ("sub", "QS", "QF"), ("sub", "QS", "QI"), ("sub", "QS", "QU"), ("sub", "QU", "CH"), ("sub", "QU", "QD"), ("sub", "QU", "QF"),
+    ("sub", "QU", "QI"), ("sub", "QU", "QS"), ("subeq", "CH", "CN"),
+}
+
+# cells on which g++ and clang++ DISAGREE on the clean tree (built-in compound assignment `int += unitless Quantity`
+# needs the templated `operator Rep()`): judged by the mini probe "compound-assign-unitless" instead
+VM_DIVERGENT = {(op, a, "QU") for op in ("addeq", "subeq", "muleq", "diveq") for a in ("I", "D")}
+# hand-derived expectations (1 = must be well-formed, 0 = must not)
+VM_EXPECT = {
+    ("add", "QI", "QI"): 1, ("add", "QI", "QD"): 1, ("add", "QI", "QF"): 1, ("add", "QI", "I"): 0, ("add", "I", "QI"): 0, ("add", "QI", "Z"): 1, ("add", "Z", "QI"): 1,
+    ("add", "PK", "PK"): 0, ("add", "PK", "PC"): 0, ("add", "QS", "CH"): 1, ("add", "CH", "QS"): 1, ("add", "Z", "Z"): 1,
+    ("add", "PK", "I"): 0, ("add", "QI", "MK"): 0, ("add", "QI", "SY"): 0, ("add", "MG", "MG"): 0,
+    ("sub", "PK", "PK"): 1, ("sub", "PK", "PC"): 1, ("sub", "PC", "PK"): 1, ("sub", "QI", "I"): 0, ("sub", "QS", "CH"): 1, ("sub", "CH", "QS"): 1, ("sub", "QI", "Z"): 1,
+    ("mul", "QI", "QI"): 1, ("mul", "QI", "QS"): 1, ("mul", "QI", "I"): 1, ("mul", "I", "QI"): 1, ("mul", "D", "QI"): 1, ("mul", "QI", "PK"): 0, ("mul", "PK", "I"): 0,
+    ("mul", "I", "PK"): 0, ("mul", "PK", "PK"): 0, ("mul", "QI", "SY"): 1, ("mul", "SY", "QI"): 1, ("mul", "I", "SY"): 1, ("mul", "SY", "I"): 1, ("mul", "QI", "CN"): 1,
+    ("mul", "CN", "QI"): 1, ("mul", "I", "CN"): 1, ("mul", "CN", "I"): 1, ("mul", "CN", "CN"): 1, ("mul", "MK", "MK"): 1, ("mul", "MK", "MG"): 1, ("mul", "SG", "MK"): 1,
+    ("mul", "SG", "SG"): 1, ("mul", "MG", "MG"): 1, ("mul", "UT", "UT"): 1, ("mul", "UT", "MG"): 1, ("mul", "SY", "SY"): 1, ("mul", "MG", "SY"): 1, ("mul", "SY", "MG"): 1,
+    ("mul", "CN", "MK"): 1, ("mul", "MK", "CN"): 1, ("mul", "CN", "MG"): 1, ("mul", "MG", "CN"): 1, ("mul", "PM", "MG"): 1, ("mul", "I", "MK"): 0, ("mul", "Z", "QI"): 0,
+    ("mul", "QI", "CH"): 0,
+    ("div", "QI", "I"): 1, ("div", "QD", "QD"): 1, ("div", "D", "QD"): 1, ("div", "MK", "MK"): 1, ("div", "MK", "SG"): 1, ("div", "MK", "MG"): 1, ("div", "QD", "SY"): 1,
+    ("div", "SY", "QD"): 1, ("div", "D", "SY"): 1, ("div", "SY", "D"): 1, ("div", "QD", "CN"): 1, ("div", "CN", "QD"): 1, ("div", "CN", "CN"): 1, ("div", "PK", "I"): 0,
+    ("div", "PK", "PK"): 0, ("div", "MG", "MG"): 1, ("div", "UT", "UT"): 1, ("div", "UT", "MG"): 1, ("div", "PM", "MG"): 1, ("div", "SG", "SG"): 0,
+    ("mod", "QI", "QI"): 1, ("mod", "QI", "QF"): 1, ("mod", "QI", "I"): 0, ("mod", "PK", "PK"): 0,
+    ("eq", "QI", "QI"): 1, ("eq", "QI", "QD"): 1, ("eq", "QI", "QF"): 1, ("eq", "QI", "Z"): 1, ("eq", "Z", "QI"): 1, ("eq", "QI", "I"): 0, ("eq", "I", "QI"): 0,
+    ("eq", "PK", "PK"): 1, ("eq", "PK", "PC"): 1, ("eq", "PK", "Z"): 0, ("eq", "Z", "PK"): 0, ("eq", "PK", "QI"): 0, ("eq", "QS", "CH"): 1, ("eq", "CH", "QS"): 1,
+    ("eq", "Z", "Z"): 1, ("eq", "MG", "MG"): 1, ("eq", "MK", "MK"): 0, 
+    ("ne", "QS", "CH"): 1, ("ne", "CH", "QS"): 1, ("ne", "QI", "Z"): 1, ("ne", "Z", "QI"): 1, ("ne", "PK", "PC"): 1, ("ne", "PC", "PK"): 1, ("ne", "MG", "MG"): 1, ("ne", "QI", "I"): 0,
+    ("lt", "QS", "CH"): 1, ("lt", "CH", "QS"): 1, ("lt", "QI", "Z"): 1, ("lt", "Z", "QI"): 1, ("lt", "PK", "PC"): 1, ("lt", "PK", "Z"): 0, ("lt", "MG", "MG"): 0, ("lt", "Z", "Z"): 1,
+    ("le", "QS", "CH"): 1, ("le", "CH", "QS"): 1, ("le", "Z", "QD"): 1, ("gt", "QS", "CH"): 1, ("gt", "CH", "QS"): 1, ("gt", "QD", "Z"): 1, ("ge", "QS", "CH"): 1,
+    ("ge", "CH", "QS"): 1, ("ge", "PC", "PK"): 1, ("ge", "Z", "QF"): 1,
+    ("addeq", "QI", "QI"): 1, ("addeq", "QI", "Z"): 1, ("addeq", "QI", "I"): 0, ("addeq", "PK", "QI"): 0, ("addeq", "PK", "PK"): 0, ("addeq", "QI", "QD"): 0,
+    ("subeq", "QI", "QI"): 1, ("subeq", "PK", "PK"): 0, ("muleq", "QI", "I"): 1, ("muleq", "PK", "I"): 0, ("diveq", "QD", "D"): 1,
+    ("diveq", "PK", "I"): 0,
+}
+
+
+def vm_block():
+    """C++ text of the detection traits + the function printing the table."""
+    L = ["namespace sxv {", "using namespace sx;", "template <class...> using vt = void;"]
+    for n, sym in VM_OPS:
+        lhs = "std::declval<A &>()" if n in ("addeq", "subeq", "muleq", "diveq") else "std::declval<A>()"
+        L.append("template <class A, class B, class = void> struct can_%s : std::false_type {}; "
+                 "template <class A, class B> struct can_%s<A, B, vt<decltype(%s %s std::declval<B>())>> : std::true_type {};" % (n, n, lhs, sym))
+    L += ["template <class A, class = void> struct can_neg : std::false_type {}; template <class A> struct can_neg<A, vt<decltype(-std::declval<A>())>> : std::true_type {};",
+          "template <class A, class = void> struct can_pos : std::false_type {}; template <class A> struct can_pos<A, vt<decltype(+std::declval<A>())>> : std::true_type {};",
+          "template <class A, class = void> struct can_stream : std::false_type {}; template <class A> struct can_stream<A, vt<decltype(std::declval<std::ostream &>() << std::declval<A>())>> : std::true_type {};",
+          "template <class A, class B, class = void> struct can_call : std::false_type {}; template <class A, class B> struct can_call<A, B, vt<decltype(std::declval<A>()(std::declval<B>()))>> : std::true_type {};",
+          "inline void cell(int got, int want) { std::printf(\"%d\", got); if (want >= 0 && want != got) { ++sx::g_mismatch; std::printf(\"!MISMATCH\"); } }",
+          "static void table() {"]
+    n_cells = n_exp = 0
+    for n, _ in VM_OPS:
+        for a, ta in VM_KINDS:
+            L.append('    std::printf("valid.%s.%s = ");' % (n, a))
+            for b, tb in VM_KINDS:
+                if (n, a, b) in VM_HARD_ERROR:
+                    L.append('    std::printf("h");')
+                elif (n, a, b) in VM_DIVERGENT:
+                    L.append('    std::printf("d");')
+                else:
+                    w = VM_EXPECT.get((n, a, b), -1)
+                    n_cells += 1
+                    n_exp += w >= 0
+                    L.append("    cell(int(can_%s<%s, %s>::value), %d);" % (n, ta, tb, w))
+            L.append('    std::printf("\\n");')
+    un = {("neg", "QI"): 1, ("neg", "QD"): 1, ("neg", "PK"): 0, ("neg", "Z"): 0, ("neg", "MK"): 0, ("pos", "QI"): 1, ("pos", "PK"): 0,
+          ("stream", "QI"): 1, ("stream", "PK"): 1, ("stream", "Z"): 1, ("stream", "MG"): 1, ("stream", "CN"): 1, ("stream", "SY"): 1, ("stream", "MK"): 0, ("stream", "UT"): 0}
+    for n in ("neg", "pos", "stream"):
+        L.append('    std::printf("valid.%s = ");' % n)
+        for a, ta in VM_KINDS:
+            if n == "stream" and a == "CH":
+                L.append('    std::printf("s");')      # streaming a chrono duration is a C++20 standard-library feature, not Au's
+                continue
+            if False:
+                pass
+            n_cells += 1
+            L.append("    cell(int(can_%s<%s>::value), %d);" % (n, ta, un.get((n, a), -1)))
+        L.append('    std::printf("\\n");')
+    calls = {("MK", "I"): 1, ("MK", "D"): 1, ("MK", "QI"): 1, ("MK", "PK"): 1, ("PM", "I"): 1, ("PM", "QI"): 1, ("SY", "I"): 0, ("SG", "I"): 0, ("CN", "I"): 0, ("MK", "MK"): 0}
+    for a, ta in [k for k in VM_KINDS if k[0] in ("MK", "PM", "SY", "SG", "CN")]:
+        L.append('    std::printf("valid.call.%s = ");' % a)
+        for b, tb in [k for k in VM_KINDS if k[0] in ("I", "D", "QI", "PK")]:
+            if a in ("MK", "PM") or b == "I":
+                n_cells += 1
+                L.append("    cell(int(can_call<%s, %s>::value), %d);" % (ta, tb, calls.get((a, b), -1)))
+        L.append('    std::printf("\\n");')
+    L += ["}", "}  // namespace sxv"]
+    return "\n".join(L) + "\n", n_cells, n_exp
+
+
 def build(rng):
     g = Gen(rng)
     for sec in SECTIONS:
         sec(g)
-    return g.source(), g.n
+    src = g.source()
+    return src, g.n + g.vm_cells
 
 
 SECTIONS = [sec_quantity_same, sec_quantity_mixed, sec_qlike_zero, sec_points, sec_wrappers, sec_constant_mag_traits, sec_math_io, sec_standard_dependent]
@@ -813,4 +939,15 @@ constexpr auto c = au::copysign(au::seconds(3.0), au::minutes(-1.0));  // copysi
 static_assert(a == au::seconds(-3.0) && b == -3.0 && c == au::seconds(-3.0), "copysign");
 int main() { return 0; }
 """
-MINI_PROBES = [("odr-static-unit", ODR_UNIT_PROGRAM, "link"), ("constexpr-copysign", CONSTEXPR_COPYSIGN_PROGRAM, "syntax")]
+# built-in compound assignment with a unitless Quantity on the right needs the implicit `operator Rep()`
+COMPOUND_UNITLESS_PROGRAM = _INC + r"""
+int main() {
+    auto u = au::make_quantity<au::UnitProductT<>>(2);
+    int i = 3; i += u; i -= u; i *= u; i /= u;
+    double d = 1.5; d += u; d -= u; d *= u; d /= u;
+    std::printf("%d %g\n", i, d);
+    return (i == 3 && d == 1.5) ? 0 : 1;
+}
+"""
+MINI_PROBES = [("odr-static-unit", ODR_UNIT_PROGRAM, "link"), ("constexpr-copysign", CONSTEXPR_COPYSIGN_PROGRAM, "syntax"),
+               ("compound-assign-unitless", COMPOUND_UNITLESS_PROGRAM, "link")]
